@@ -6,7 +6,7 @@ model  : Model/Convert.lean
 oracle : props/asp_sem.py — brute-force stable models of the ORIGINAL program and of the program the IMPLEMENTATION emitted; the
          atom map is recovered from the emitted rules; checked: bijection of stable models under the map, same shown names per
          model, externals' behaviour, per-priority costs equal up to a constant, priorities ascending; injectivity of the map."""
-from props import progs, asp_sem
+from props import progs, smodels_ref, asp_sem
 import subprocess, os
 from vlib import runner
 ID = "C02"
@@ -136,7 +136,7 @@ def generate(ctx):
     n = {"quick": 4000, "thorough": 100000}[ctx.tier]
     return [gen_case(ctx.rng, ctx.rng.random() < 0.2) for _ in range(n)]
 
-def check_semantics(c, emitted_words, amap):
+def check_semantics(c, emitted_words, amap, with_costs=True):
     orig = original(c); conv = parse_words(emitted_words)
     oa = sorted(asp_sem.atoms_of(orig)); ca = sorted(asp_sem.atoms_of(conv))
     if len(oa) > 7 or len(ca) > 11: return None
@@ -156,13 +156,14 @@ def check_semantics(c, emitted_words, amap):
         # unmapped input atoms are false in every model (nothing derives them)
         if asp_sem.shown(orig, I) != asp_sem.shown(conv, J):
             return ("C02:shown-symbols", "a stable model shows different symbol names", {"orig": asp_sem.shown(orig, I), "conv": asp_sem.shown(conv, J), "model": sorted(I)})
+        if not with_costs: continue
         co, cc = asp_sem.costs(orig, I), asp_sem.costs(conv, J)
         if set(co) != set(cc): return ("C02:cost", "different priorities", {"orig": co, "conv": cc})
         for p in co:
             d = cc[p] - co[p]
             if diffs.setdefault(p, d) != d: return ("C02:cost", "per-priority cost differs by a non-constant amount", {"prio": p, "orig": co, "conv": cc})
     prios = [p for p, _ in conv["minimize"]]
-    if prios != sorted(set(prios)): return ("C02:cost", "minimize statements not emitted once per priority in ascending order", {"prios": prios})
+    if with_costs and prios != sorted(set(prios)): return ("C02:cost", "minimize statements not emitted once per priority in ascending order", {"prios": prios})
     return "ok"
 
 def check_steps(c, emitted_words, amap):
@@ -225,6 +226,29 @@ def evaluate(ctx, cases):
                 else: ctx.fail(v[0], v[1], jc, dict(v[2], emitted=" ".join(emitted)[:500]))
         ctx.compared += 1
         if i != m: ctx.disagree("SmodelsConvert", jc, i[:600], m[:600])
+    # --- "converting any ground program to smodels FORMAT": the emitted calls written by the real SmodelsOutput, the text read by the reference reader
+    #     (props/smodels_ref.py), and the answer sets / shown names of what the text denotes compared with the original's (single-step programs)
+    wr = [(c, i) for c, i in zip(cases, impl) if isinstance(i, str) and "EXC" not in i.split(" ") and not c["inc"]][:{"quick": 1500, "thorough": 20000}[ctx.tier]]
+    strip = lambda v: " ".join(w for w in v.split(" ") if not w.startswith("M:") and not w.startswith("G:"))
+    l2 = ["sw %d 0 %s" % (c["ext"], strip(i)) for c, i in wr]
+    for (c, i), w in zip(wr, ctx.impl(l2)):
+        jc = jsonable(c)
+        if not isinstance(w, str): ctx.fail("C02:crash", "crash / sanitizer abort in the smodels writer", jc, {"stderr": w[2][-1500:]}); continue
+        hx, st = w.split(" ")[0], w.split(" ")[-1]
+        if st != "OK":
+            # "either fails with a reported error (for constructs smodels cannot express)": a weight rule with a negative bound is passed on by the
+            # converter (behind an auxiliary head) and refused by the writer — lpconvert reports 'unsupported rule type'
+            if any(x.startswith("S,") and int(x.split(",")[3]) < 0 for x in i.split(" ")): ctx.dist["reported error: negative bound (writer)"] += 1; continue
+            ctx.fail("C02:exception", "the smodels writer throws on what the converter emits", jc, {"got": w[-200:]}); continue
+        text = bytes.fromhex(hx) if hx != "-" else b""
+        ok, calls = smodels_ref.accept(text, bool(c["ext"]))
+        if not ok: ctx.fail("C02:written-text", "the smodels text written for the converted program is not well-formed", jc, {"text": text[:400].decode("latin-1")}); continue
+        ws = i.split(" ")
+        amap = dict(tuple(int(t) for t in kv.split("=")) for kv in ws[-1][2:].split("/")) if ws[-1][2:] else {}
+        v = check_semantics(c, [x for x in calls if x[0] in "RSMOXA"], amap, with_costs=False)
+        if v is None: ctx.dist["too-large-for-oracle"] += 1
+        elif v == "ok": ctx.dist["oracle-ok (written smodels text)"] += 1
+        else: ctx.fail(v[0], "written smodels text: " + v[1], jc, dict(v[2], text=text[:400].decode("latin-1")))
     # --- the oracle against the specification: the stable models asp_sem.py computes for the ORIGINAL rules must be those of the
     #     executable enumerator of Spec/Asp.lean (proved to decide `Stable`: Lemmas/AspEnum.lean), the semantics the theorems are about
     spec = []
